@@ -1838,6 +1838,28 @@ def builtin_call(fr: Frame, name, args, kwargs):
             raise Unsupported("sorted() with key/reverse")
         if isinstance(x, (list, tuple)) and all(isinstance(v, (int, str)) and not isinstance(v, bool) for v in x):
             return sorted(x)
+        if isinstance(x, SetOf):
+            # sorted(set(xs)) of a short list of integers: insertion with one fork per comparison (duplicates collapse)
+            n = x.arr.extent(0)
+            if not is_pyint(n) or n > 4 or x.arr.kind != "int":
+                raise Unsupported("sorted(set(...)) of more than four values or of non-integers")
+            c = cur()
+            f = x.arr.snapshot_fn()
+            out = []
+            for k in range(n):
+                v = f(((k,),))
+                placed = False
+                for i, u in enumerate(out):
+                    if c.branch(sym.eq(v, u)):
+                        placed = True
+                        break
+                    if c.branch(sym.lt(v, u)):
+                        out.insert(i, v)
+                        placed = True
+                        break
+                if not placed:
+                    out.append(v)
+            return out
         a = N.asarray(x)
         if a.ndim != 1:
             raise Unsupported("sorted() of a non-sequence")
